@@ -257,13 +257,14 @@ func (r *Run) Finish(verifDir string) {
 	for k, v := range r.extra {
 		cov[k] = v
 	}
+	assume := append([]string{"the tree analysed is the tree that is built: no build tags other than the GOOS/GOARCH configurations listed, no cgo, no generated sources outside the loaded packages"}, r.assume...)
 	ev := map[string]interface{}{
 		"property_id": r.Property,
 		"tier":        r.Tier,
 		"seed":        r.Seed,
 		"level":       r.Level,
 		"coverage":    cov,
-		"assumptions": r.assume,
+		"assumptions": assume,
 		"wall_s":      time.Since(r.Start).Seconds(),
 		"violations":  len(viol),
 	}
